@@ -180,12 +180,16 @@ def main(argv=None):
         seen_fp.add(fp)
         nrep += 1
         path = write_replay(pid, v.get("part", "x"), v, nrep)
+        rc = 1
+        if nrep > 20:
+            continue
         print(f"VIOLATION property={pid} replay={path}")
         print(f"  fingerprint: {fp}")
-        print(f"  what: {v.get('what')}")
+        print(f"  what: {str(v.get('what'))[:500]}")
         if v.get("scenario"):
             print(f"  scenario: {json.dumps(v['scenario'], default=repr)[:600]}")
-        rc = 1
+    if nrep > 20:
+        print(f"... {nrep - 20} more distinct violation fingerprints (replay files written)")
     if machinery:
         for m in machinery:
             print("MACHINERY-ERROR", m)
